@@ -308,7 +308,15 @@ func (s *Syncer) fetch(ctx context.Context, rsrc string, cb func(io.Reader) erro
 	// without the IPNI path. The fallback is kept for later requests only if
 	// the server answered it; otherwise the IPNI path is restored.
 	var triedNoPath, noPathOK bool
+	// Trying the next address drops the failed one. If no address responds,
+	// start over from the first address on the next fetch.
+	origRoot, origURLs := s.rootURL, s.urls
+	var gotResponse bool
 	defer func() {
+		if !gotResponse {
+			s.rootURL, s.urls = origRoot, origURLs
+			return
+		}
 		if triedNoPath && !noPathOK {
 			s.rootURL = *s.rootURL.JoinPath(IPNIPath)
 			s.noPath = false
@@ -349,6 +357,7 @@ retry:
 		return fmt.Errorf("fetch request failed: %w", err)
 	}
 	defer resp.Body.Close()
+	gotResponse = true
 
 	switch resp.StatusCode {
 	case http.StatusOK:
